@@ -56,11 +56,8 @@ class Chooser:
     # -- primitive ------------------------------------------------------------------
     def choose(self, label: str, n: int) -> int:
         """An integer in [0, n). 0 is by convention the simplest alternative."""
-        n = int(n)
-        if n <= 1:
-            v = 0
-        else:
-            v = self.source.draw(label, n)
+        n = max(1, int(n))
+        v = self.source.draw(label, n)  # always consumes one tape entry, so record and replay stay aligned
         self.tape.append([label, n, v])
         return v
 
